@@ -195,6 +195,10 @@ func scenarios() [][]command {
 		p("RECV 4 2; RECV 6 2; APPLY 6; APPLY 4; COMPACT 4"),
 		p("SAVE 2 1; SAVE 3 1; COMMIT 3; COMMIT 2; COMPACT 2"),
 		p("SAVE 2 1; COMMIT 2; SHRINK 2; SHRINK 2; SAVE 4 1; COMMIT 4; SHRINK 2"),
+		// a second finalization of an index that is finalized, recorded and still flagged
+		p("RECV 5 2; RECORD 5; RECV 5 1; APPLY 5"),
+		p("SAVE 3 1; COMMIT 3; RECV 7 1; RECORD 7; RECVX 7 2 1; APPLY 7; COMPACT 3"),
+		p("SAVE 6 1; RECV 6 2; RECORD 6; COMMIT 6; APPLY 6"),
 		p("RECVX 5 2 1; APPLY 5"),
 		p("RECVX 5 1 2; APPLY 5; SAVE 7 1; COMMIT 7; COMPACT 5"),
 		p("SAVE 6 1; RECVX 6 3 3; COMMIT 6; APPLY 6; CRASH"),
@@ -245,7 +249,17 @@ func randomSeq(r *vh.Rand, maxLen int) []command {
 			}
 			received = append(received, i)
 			final = append(final, i)
-			if r.Chance(2, 3) {
+			if r.Chance(1, 4) {
+				// the record is durable, the flag file is still there: a retransmission
+				// or a local save of the same index finalizes in that window
+				out = append(out, command{kind: "RECORD", i: i})
+				if r.Bool() {
+					out = append(out, command{kind: "RECV", i: i, n: uint64(1 + r.Intn(3))})
+				} else {
+					out = append(out, command{kind: "SAVE", i: i, n: 1}, command{kind: "COMMIT", i: i})
+				}
+				out = append(out, command{kind: "APPLY", i: i})
+			} else if r.Chance(2, 3) {
 				out = append(out, command{kind: "APPLY", i: i})
 			}
 		case 6:
@@ -285,6 +299,7 @@ func diskScenarios() [][]command {
 		p("RECV 5 1; APPLY 5; RECOVER 5; RECV 8 2; APPLY 8; RECOVER 8; COMPACT 5"),
 		p("RECV 5 2; APPLY 5; CRASH; RECV 9 2; APPLY 9; RECOVER 9"),
 		p("RECV 5 2; APPLY 5; RECOVER 5; CRASH; RECV 7 1; APPLY 7; RECOVER 7; CRASH"),
+		p("RECV 5 2; RECORD 5; RECV 5 2; APPLY 5; RECOVER 5"),
 		p("ENTRIES 7; DSAVE"),
 		p("ENTRIES 4; DSAVE; ENTRIES 9; DSAVE; CRASH; ENTRIES 12; DSAVE"),
 		p("RECVX 5 2 2; APPLY 5; RECOVER 5; ENTRIES 8; DSAVE; CRASH"),
